@@ -81,6 +81,9 @@ def _scenario_runner(mod):
         seed = int(scn.get("seed", 0)) & 0x7FFFFFFF
         random.seed(seed)
         np.random.seed(seed)
+        from . import world
+
+        world.seed_entropy(seed)
         return mod.run_scenario(scn, workdir)
 
     return run
